@@ -224,9 +224,21 @@ def replay_real(ad, items, close_steps=None):
                 hist[r].append(int(a[r]))
         dn = done_of(td)
         sc = score(ad, env, td, hist, [ad.scale(i) for i in insts])
+        # the reward as a function of INSTANCE + ACTIONS alone: the same actions scored against the freshly reset instance (what
+        # the evaluation classes and any "score these externally produced actions" call do).  Environments whose objective is
+        # read from the rollout state do not support that call (they raise): nothing to compare there.
+        sc0 = [None] * len(group)
+        try:
+            if not ad.reward_from_actions:
+                raise NotImplementedError
+            env0 = ad.make_env(insts[0])
+            rew0 = ad.get_reward(env0, env0.reset(ad.to_td(insts)), torch.tensor(hist, dtype=torch.long))
+            sc0 = [ad.scale_reward(float(rew0[r]), ad.scale(insts[r])) for r in range(len(group))]
+        except Exception:  # noqa: BLE001
+            pass
         for r, (k, _) in enumerate(group):
             results[k] = {"bad_step": bad[r], "offered": offered[r], "done": bool(dn[r]),
-                          "reward": sc[r][0], "checker": sc[r][1], "played": hist[r]}
+                          "reward": sc[r][0], "checker": sc[r][1], "played": hist[r], "reward_on_reset_instance": sc0[r]}
     return results
 
 
